@@ -29,7 +29,42 @@ TABLE = [("G-CYC", 300), ("G-ACY", 300), ("G-LEX", 150), ("G-TIE", 100), ("G-SLO
 def plan(tier, seed):
     ctx = 20 if tier == "quick" else 250
     b = harness.split("G-DEADPAT", len(PATTERNS) * ctx, 124 if tier == "quick" else 1240, ctx=ctx)
-    return b + sc.plan_classes(tier, TABLE)
+    return b + sc.plan_classes(tier, TABLE) + [{"cls": "REPOTESTS", "start": 0, "count": 1}]
+
+
+def decide_repo_tests():
+    """The repository's own 57 tests, run in this process with the monitors attached: every solve() a hand-built fixture
+    goes through is one more observed execution of the pruning step."""
+    import contextlib
+    import io
+    import os
+    import pytest
+    from .. import bootstrap
+    MON = monitors.MON
+    MON.drain("prune"); MON.drain("rev"); MON.drain("alias")
+    before = dict(MON.counters)
+    buf = io.StringIO()
+    cwd = os.getcwd()
+    os.chdir(bootstrap.REPO)
+    try:
+        with contextlib.redirect_stdout(buf), contextlib.redirect_stderr(buf):
+            rc = pytest.main(["-q", "-p", "no:cacheprovider", "--no-header", "-x", "tests"])
+    finally:
+        os.chdir(cwd)
+        MON.metering = False
+    ev = MON.drain("prune")
+    exits = MON.counters.get("prune.exits", 0) - before.get("prune.exits", 0)
+    res = {"idx": 0, "verdict": "held", "tags": ["REPOTESTS"], "key": "repo-tests", "nontrivial": exits > 0,
+           "stats": {"repo_test_runs": 1, "repo_tests_prune_exits": exits,
+                     "repo_tests_solves": MON.counters.get("alias.solves", 0) - before.get("alias.solves", 0),
+                     "repo_tests_rev_events": len(MON.drain("rev")), "repo_tests_alias_events": len(MON.drain("alias"))}}
+    tail = buf.getvalue().strip().splitlines()[-1:] or [""]
+    res["sample"] = {"repo_tests": tail[0], "pruning_steps_observed": exits}
+    if int(rc) != 0:
+        res.update(verdict="inconclusive", what="repository tests did not pass under the monitors (rc=%s): %s" % (rc, tail[0]))
+    elif ev:
+        res.update(verdict="violated", what="during the repository's own tests: " + str(ev[0]["problems"][0])[:200], witness=ev[:2], case={"repo_tests": True})
+    return res
 
 
 def decide(gd, idx, cls, pattern=None):
@@ -71,6 +106,9 @@ def run_batch(batch):
     for idx in range(batch["start"], batch["start"] + batch["count"]):
         EMIT_START(idx)
         rng = games.case_rng(seed, PID, cls, idx)
+        if cls == "REPOTESTS":
+            yield decide_repo_tests()
+            continue
         if cls == "G-DEADPAT":
             kind, pat = PATTERNS[idx % len(PATTERNS)]
             gd, _ = games.gen_dead(rng, kind, list(pat))
@@ -91,6 +129,8 @@ def finish(agg):
 
 def replay(case):
     monitors.install()
+    if case.get("repo_tests"):
+        return decide_repo_tests()
     return decide(games.dec_game(case["game"]), 0, "REPLAY")
 
 
